@@ -112,7 +112,13 @@ class RandomOracle:
             if rng.random() < p.p_success:
                 return Ans("value", self.fresh(), dur=d)
             if info.get("result_classifier") and rng.random() < 0.5:
-                return Ans("value", self.fresh(), dur=d)
+                # sometimes the operation returns the very object it returned before (a poller handing back one
+                # mutable job record): same token => same Python object (Env caches values)
+                last = getattr(self, "_last_val", None)
+                if last is not None and rng.random() < 0.15:
+                    return Ans("value", last, dur=d)
+                self._last_val = self.fresh()
+                return Ans("value", self._last_val, dur=d)
             if kind == "op":
                 # sometimes the operation re-raises the very exception object it raised before (a
                 # latched / cached error): same token => same Python object (Env caches op exceptions)
